@@ -98,8 +98,8 @@ def stubs():
 def precondition(centered, S, M, tr):
     """The hypothesis of si_full_eq_spec (coq/C03/Proofs.v, [pre])."""
     if centered:
-        return M >= 1 and 2 * M >= S + 1
-    return S + tr + 1 <= M
+        return M >= 1 and tr <= M - 1 and S - S // 2 <= M
+    return M >= 1 and S + tr + 1 <= M
 
 
 def geometry(centered, sup, S, dmin, pad):
@@ -307,14 +307,18 @@ def build_computer(cfg, use_log=False):
     return comp, bank
 
 
+class NotExact(Exception):
+    pass
+
+
 def int_rows(np, arr, what):
     a = np.asarray(arr, dtype=np.float64)
     if a.size and not np.all(np.isfinite(a)):
-        raise ValueError("non-finite value in %s" % what)
+        raise NotExact("non-finite value in %s" % what)
     r = np.rint(a)
     if a.size and float(np.max(np.abs(a - r))) > 1e-6:
-        raise ValueError("integer-coded run produced a non-integer in %s: max distance %g"
-                         % (what, float(np.max(np.abs(a - r)))))
+        raise NotExact("integer-coded run produced a non-integer in %s: max distance %g"
+                       % (what, float(np.max(np.abs(a - r)))))
     return [[int(v) for v in row] for row in r]
 
 
@@ -329,28 +333,36 @@ def exc_code(e):
 
 
 def run_ops_impl(np, comp, ops):
-    """-> list of outcomes (err, dtype code, rows); stops after the first error."""
+    """-> list of outcomes [err, dtype code, rows, message, streaming-nontrivial];
+    stops after the first error."""
     import pydrobert.speech.compute as compute
 
     outs = []
     for o in ops:
         try:
+            nt = False
             if o["op"] == "full":
                 res = comp.compute_full(np.array(o["xs"], dtype=np_dtype(np, o["dt"])))
+                nt = len(res) >= 2
             elif o["op"] == "fbf":
                 res = compute.frame_by_frame_calculation(
                     comp, np.array(o["xs"], dtype=np_dtype(np, o["dt"])), o["cs"])
+                nt = len(res) >= 2 and len(o["xs"]) > o["cs"]
             else:
                 parts = []
                 for d, ch in o["chunks"]:
                     parts.append(comp.compute_chunk(np.array(ch, dtype=np_dtype(np, d))))
                 parts.append(comp.finalize())
+                # frames from a non-final call AND from finalize
+                nt = any(len(p_) for p_ in parts[:-1]) and len(parts[-1]) > 0
                 res = np.concatenate(parts)
             if res.ndim != 2 or res.shape[1] != comp.num_coeffs:
                 raise RuntimeError("bad result shape %r" % (res.shape,))
-            outs.append([0, dtype_code(np, res.dtype), int_rows(np, res, o["op"])])
-        except (ValueError, AssertionError, IndexError, ZeroDivisionError, RuntimeError, TypeError) as e:
-            outs.append([exc_code(e), 0, [], "%s: %s" % (type(e).__name__, e)])
+            outs.append([0, dtype_code(np, res.dtype), int_rows(np, res, o["op"]), "", bool(nt)])
+        except NotExact:
+            raise
+        except Exception as e:  # noqa - any exception type is an observable outcome
+            outs.append([exc_code(e), 0, [], "%s: %s" % (type(e).__name__, e), False])
             break
     return outs
 
@@ -360,24 +372,23 @@ def run_impl(np, cfg):
     irs = {}
     for idx, width, arr in bank.calls:
         irs[idx] = arr
-    geom = [int(comp._max_support), int(comp._translation), int(comp._dft_size), int(comp._y_buf.shape[0])]
+    width = max([len(a) for a in irs.values()] + [1])
     S_impl = int(comp.frame_shift)
-    taps = []
-    D = comp._dft_size
-    for F in comp._filts:
-        t = np.fft.irfft(F, n=D) if cfg["real"] else np.fft.ifft(F)
-        M = geom[0]
-        if np.max(np.abs(t[M:]), initial=0.0) > 1e-6:
-            taps.append(None)  # energy beyond max_support: cannot be a <= M tap filter
-            continue
-        if cfg["real"]:
-            taps.append(int_rows(np, [t[:M]], "filter taps")[0])
-        else:
-            re = int_rows(np, [t[:M].real], "filter taps")[0]
-            im = int_rows(np, [t[:M].imag], "filter taps")[0]
-            taps.append([(a, b) for a, b in zip(re, im)])
-    info = dict(geom=geom, S=S_impl, taps=taps, frame_length=int(comp.frame_length),
-                num_coeffs=int(comp.num_coeffs), irs=irs)
+    info = dict(S=S_impl, frame_length=int(comp.frame_length), num_coeffs=int(comp.num_coeffs), irs=irs,
+                width=width, priv=None)
+    # private attributes: diagnostic only (reported when an observable comparison fails)
+    try:
+        M, D = int(comp._max_support), int(comp._dft_size)
+        taps = []
+        for F in comp._filts:
+            t = np.fft.irfft(F, n=D) if cfg["real"] else np.fft.ifft(F)
+            if cfg["real"]:
+                taps.append([int(v) for v in np.rint(t[:M])])
+            else:
+                taps.append([(int(a), int(b)) for a, b in zip(np.rint(t[:M].real), np.rint(t[:M].imag))])
+        info["priv"] = dict(geom=[M, int(comp._translation), D, int(comp._y_buf.shape[0])], taps=taps)
+    except Exception:  # noqa
+        pass
     outs = run_ops_impl(np, comp, cfg["ops"])
     return info, outs
 
@@ -407,16 +418,14 @@ def coq_op(real, o):
 
 
 def coq_case(i, cfg, info, outs):
-    """Definitions c_i, ok_i for one case; ok_i is a list of booleans
-    [geometry; taps; outcomes; spec]."""
+    """Definitions c_i, ok_i for one case; ok_i = [public shape; outcomes; si_spec]."""
     real = cfg["real"]
     n = len(cfg["sup"])
-    D = info["geom"][2]
     irs = []
     for k in range(n):
         arr = info["irs"].get(k)
         if arr is None:
-            irs.append([0] * D)
+            irs.append([0] * info["width"])
         elif real:
             irs.append([int(round(float(v))) for v in arr])
         else:
@@ -427,20 +436,14 @@ def coq_case(i, cfg, info, outs):
         C.zlist(cfg["pad"]), C.zlist(cfg["energy"]), "; ".join(klist(real, ir) for ir in irs),
         klist(real, cfg["window"]))
     K = "Z" if real else "G"
-    geom_ok = "list_eqb Z.eqb (geometry %s c_%d) %s" % (K, i, C.zlist(info["geom"]))
-    if any(t is None for t in info["taps"]):
-        taps_ok = "false"
-    elif real:
-        taps_ok = "list_eqb (list_eqb Z.eqb) (cTaps Z c_%d) [%s]" % (i, "; ".join(klist(True, t) for t in info["taps"]))
-    else:
-        taps_ok = ("list_eqb (list_eqb (fun a b => (fst a =? fst b) && (snd a =? snd b))) (cTaps G c_%d) [%s]"
-                   % (i, "; ".join(klist(False, t) for t in info["taps"])))
+    pub_ok = "(cM %s c_%d + cS %s c_%d - 1 =? %d) && (zlen (cTaps %s c_%d) =? %d)" % (
+        K, i, K, i, info["frame_length"], K, i, info["num_coeffs"])
     nops = len(outs)
     ops = "[" + "; ".join(coq_op(real, o) for o in cfg["ops"][:nops]) + "]"
     exp = "[" + "; ".join("(%d, %d, %s)" % (o[0], o[1], C.zlist(o[2])) for o in outs) + "]"
     runner = ("run_opsZ %s" % C.zlist(cfg["power"])) if real else "run_opsG"
     outs_ok = "list_eqb outcome_eqb (%s c_%d %s) %s" % (runner, i, ops, exp)
-    # the documented definition against every successful float result
+    # the documented definition against every successful result
     spec_terms = []
     if cfg["pre"]:
         specf = ("specZ %s" % C.zlist(cfg["power"])) if real else "specG"
@@ -448,71 +451,35 @@ def coq_case(i, cfg, info, outs):
             if r[0] == 0:
                 spec_terms.append("rows_eqb (%s c_%d %s) %s" % (specf, i, klist(real, o["xs"]), C.zlist(r[2])))
     spec_ok = " && ".join(spec_terms) if spec_terms else "true"
-    s += "Definition ok_%d := [%s; %s; %s; %s].\n" % (i, geom_ok, taps_ok, outs_ok, spec_ok)
+    s += "Definition ok_%d := [%s; %s; %s].\n" % (i, pub_ok, outs_ok, spec_ok)
     return s
 
 
-def coq_debug(i, cfg, outs):
+def coq_debug(i, cfg, info, outs):
     real = cfg["real"]
     K = "Z" if real else "G"
     nops = len(outs)
     ops = "[" + "; ".join(coq_op(real, o) for o in cfg["ops"][:nops]) + "]"
     runner = ("run_opsZ %s" % C.zlist(cfg["power"])) if real else "run_opsG"
-    return ("Eval vm_compute in (geometry %s c_%d).\nEval vm_compute in (%s c_%d %s).\n" % (K, i, runner, i, ops))
+    return ("Eval vm_compute in (geometry %s c_%d).\nEval vm_compute in (cTaps %s c_%d).\n"
+            "Eval vm_compute in (%s c_%d %s).\n" % (K, i, K, i, runner, i, ops))
 
 
-def case_summary(cfg, info=None, outs=None):
-    d = dict(centered=cfg["centered"], real=cfg["real"], S=cfg["S"], supports=cfg["sup"], dmin=cfg["dmin"],
-             pad=cfg["pad"], energy=cfg["energy"], power=cfg["power"], window=cfg["window"],
-             taps={str(k): {str(n): v for n, v in t.items()} for k, t in enumerate(cfg["tables"])},
-             ops=[{k: v for k, v in o.items()} for o in cfg["ops"]], precondition=cfg["pre"])
-    if info is not None:
-        d["impl_geometry_M_tr_D_nblk"] = info["geom"]
-    if outs is not None:
-        d["impl_outcomes"] = [o[:3] + o[3:] for o in outs]
+def cfg_to_json(cfg):
+    d = dict(cfg)
+    d["tables"] = [{str(n): v for n, v in t.items()} for t in cfg["tables"]]
     return d
 
 
-def nontrivial(cfg, outs):
-    """At least one frame from a non-final compute_chunk and one from finalize
-    is approximated by: some successful operation returned >= 2 frames."""
-    return any(o[0] == 0 and len(o[2]) >= 2 for o in outs)
+def cfg_from_json(d):
+    cfg = dict(d)
+    cfg["sup"] = [tuple(x) for x in d["sup"]]
+    cfg["tables"] = [{int(n): (v if isinstance(v, int) else tuple(v)) for n, v in t.items()} for t in d["tables"]]
+    return cfg
 
 
-def integer_correspondence(ctx, ncases, label="si", big=False):
-    """Build cases, run the implementation, evaluate the model in Coq, compare."""
-    import numpy as np
-
-    rng = ctx.rng
-    cases = []
-    while len(cases) < ncases:
-        want_pre = rng.random() < 0.85
-        cfg = gen_case(rng, big=big, want_pre=want_pre)
-        if cfg is None:
-            continue
-        try:
-            info, outs = run_impl(np, cfg)
-        except ValueError as e:
-            ctx.fail("integer-coded run of the implementation is not exact: %s" % e,
-                     dict(case=case_summary(cfg)), kind="impl")
-            continue
-        except IndexError as e:
-            # the constructor itself fails (energy impulse beyond the DFT buffer): only outside
-            # the precondition, where translation >= dft_size is possible
-            if cfg["pre"]:
-                ctx.fail("constructor raised IndexError inside the precondition: %s" % e,
-                         dict(case=case_summary(cfg)), kind="impl")
-            ctx.count("%s:constructor-error-outside-pre" % label)
-            continue
-        cases.append((cfg, info, outs))
-        ctx.count("%s:%s:%s:%s" % (label, "centered" if cfg["centered"] else "causal",
-                                   "real" if cfg["real"] else "complex", "pre" if cfg["pre"] else "outside-pre"))
-        for o, r in zip(cfg["ops"], outs):
-            ctx.count("%s:op:%s:%s" % (label, o["op"], "ok" if r[0] == 0 else "err%d" % r[0]))
-            ctx.count("%s:dtype:%s" % (label, DTYPES[o["dt"]]))
-            if o["op"] == "stream":
-                ctx.count("%s:chunks" % label, len(o["chunks"]))
-                ctx.count("%s:empty-chunks" % label, sum(1 for _, ch in o["chunks"] if not ch))
+def compare_cases(ctx, cases, label):
+    """Evaluate the model on the cases inside Coq; -> indices of disagreeing cases."""
     shard = 40
     files = []
     for b in range(0, len(cases), shard):
@@ -534,27 +501,80 @@ def integer_correspondence(ctx, ncases, label="si", big=False):
         ctx.cov["traces_validated_against_impl"] += len(cases[b:b + shard]) - len(idx)
         for k in idx:
             bad.append(b + k)
+    return bad
+
+
+def explain_case(ctx, k, case, label):
+    """Re-evaluate one disagreeing case, printing what the model computes."""
+    cfg, info, outs = case
+    body = coq_case(k, cfg, info, outs) + "Eval vm_compute in ok_%d.\n" % k + coq_debug(k, cfg, info, outs)
+    ans, log = C.coq_eval(ctx, "%s_debug_%d" % (label, k), body, REQ)
+    parts = ["frame_length / num_coeffs", "operation outcomes", "documented definition (si_spec)"]
+    which, model = "?", None
+    if ans and len(ans) >= 4:
+        flags = C.parse_coq(ans[0])
+        which = ", ".join(p for p, f in zip(parts, flags) if not f)
+        model = dict(geometry_M_tr_D_nblk=ans[1][:300], prepared_taps=ans[2][:3000], outcomes=ans[3][:6000])
+    priv = info["priv"]
+    rep = dict(kind="integer", cfg=cfg_to_json(cfg), disagreement=which, model=model,
+               impl=dict(frame_shift=info["S"], frame_length=info["frame_length"], num_coeffs=info["num_coeffs"],
+                         private_geometry_M_tr_D_nblk=priv["geom"] if priv else None,
+                         private_taps=priv["taps"] if priv else None,
+                         outcomes=[o[:4] for o in outs]),
+               how="harness/c03.py:build_computer(cfg) builds the computer on the stub bank/window; "
+                   "run cfg['ops'] in order; ./check C03 --replay <this file> re-runs it")
+    what = ("short-integration computer disagrees with the Coq model on: %s (%s, %s bank, frame_shift=%d, "
+            "supports=%r)" % (which, "centered" if cfg["centered"] else "causal",
+                              "real" if cfg["real"] else "complex", cfg["S"], cfg["sup"]))
+    return what, rep
+
+
+def integer_correspondence(ctx, ncases, label="si", big=False):
+    """Build cases, run the implementation, evaluate the model in Coq, compare."""
+    import numpy as np
+
+    rng = ctx.rng
+    cases = []
+    while len(cases) < ncases:
+        want_pre = rng.random() < 0.85
+        cfg = gen_case(rng, big=big, want_pre=want_pre)
+        if cfg is None:
+            continue
+        try:
+            info, outs = run_impl(np, cfg)
+        except NotExact as e:
+            ctx.fail("integer-coded run of the implementation is not exact: %s" % e,
+                     dict(kind="integer", cfg=cfg_to_json(cfg)), kind="impl")
+            continue
+        except Exception as e:  # noqa
+            # the constructor itself fails (energy impulse beyond the DFT buffer): only outside
+            # the precondition, where translation >= dft_size is possible
+            if cfg["pre"]:
+                ctx.fail("constructor raised %s inside the precondition: %s" % (type(e).__name__, e),
+                         dict(kind="integer", cfg=cfg_to_json(cfg)), kind="impl")
+            ctx.count("%s:constructor-error-outside-pre" % label)
+            continue
+        cases.append((cfg, info, outs))
+        ctx.count("%s:%s:%s:%s" % (label, "centered" if cfg["centered"] else "causal",
+                                   "real" if cfg["real"] else "complex", "pre" if cfg["pre"] else "outside-pre"))
+        ctx.count("%s:dft:%s" % (label, "padded" if cfg["pad"] else ("odd" if info["width"] % 2 else "even")))
+        for o, r in zip(cfg["ops"], outs):
+            ctx.count("%s:op:%s:%s" % (label, o["op"], "ok" if r[0] == 0 else "err%d" % r[0]))
+            ctx.count("%s:dtype:%s" % (label, DTYPES[o["dt"]]))
+            if o["op"] == "stream":
+                ctx.count("%s:chunks" % label, len(o["chunks"]))
+                ctx.count("%s:empty-chunks" % label, sum(1 for _, ch in o["chunks"] if not ch))
+                ctx.count("%s:one-sample-chunks" % label, sum(1 for _, ch in o["chunks"] if len(ch) == 1))
+    bad = compare_cases(ctx, cases, label)
     for (cfg, info, outs) in cases:
         ctx.case(dict(kind=label, centered=cfg["centered"], real=cfg["real"], S=cfg["S"], sup=cfg["sup"],
                       dmin=cfg["dmin"], pad=cfg["pad"], energy=cfg["energy"], power=cfg["power"],
                       ops=[(o["op"], len(o["xs"]), [len(c[1]) for c in o.get("chunks", [])], o.get("cs"))
                            for o in cfg["ops"]]),
-                 nontrivial=nontrivial(cfg, outs))
+                 nontrivial=any(o[4] for o in outs))
     for k in bad[:5]:
-        cfg, info, outs = cases[k]
-        body = coq_case(k, cfg, info, outs) + "Eval vm_compute in ok_%d.\n" % k + coq_debug(k, cfg, outs)
-        ans, log = C.coq_eval(ctx, "%s_debug_%d" % (label, k), body, REQ)
-        parts = ["geometry", "prepared filter taps", "operation outcomes", "documented definition (si_spec)"]
-        which, model = "?", None
-        if ans and len(ans) >= 3:
-            flags = C.parse_coq(ans[0])
-            which = ", ".join(p for p, f in zip(parts, flags) if not f)
-            model = dict(geometry=ans[1][:2000], outcomes=ans[2][:6000])
-        ctx.fail("short-integration computer disagrees with the Coq model on: %s (%s, S=%d, supports=%r)"
-                 % (which, "centered" if cfg["centered"] else "causal", cfg["S"], cfg["sup"]),
-                 dict(case=case_summary(cfg, info, outs), model=model, disagreement=which,
-                      how="build the computer as harness/c03.py:build_computer does and run the listed ops"),
-                 kind="correspondence")
+        what, rep = explain_case(ctx, k, cases[k], label)
+        ctx.fail(what, rep, kind="correspondence")
     return cases, bad
 
 
@@ -565,14 +585,14 @@ def run_si_stream_correspondence(ctx, ncases=None):
     C.ensure_impl_path()
     import numpy as np
 
-    n = ncases if ncases is not None else ctx.scale(120, 1500)
+    n = ncases if ncases is not None else ctx.scale(200, 2000)
     ok, out = C.coq_make(["C03/Exec.v"])
     if not ok:
         ctx.fail("coq/C03 model no longer compiles", dict(correspondence="coq/C03/Exec.v", log_tail=out[-1500:]),
                  kind="tie", no_input=True)
         return
-    integer_correspondence(ctx, n, label="si-stream")
-    chunk_oracle(ctx, np, ctx.scale(25, 200))
+    integer_correspondence(ctx, n, label="sistream")
+    chunk_oracle(ctx, np, ctx.scale(40, 300))
 
 
 # --------------------------------------------------------------------------
@@ -646,7 +666,7 @@ BANKS = [
                           high_hz=950, analytic=True)),
     ("fbank", dict(name="fbank", num_filts=3, sampling_rate=2000, low_hz=60, high_hz=1000)),
     ("gabor", dict(name="gabor", scaling_function="mel", num_filts=3, sampling_rate=2000, low_hz=60, high_hz=900)),
-    ("gabor-erb", dict(name="gabor", scaling_function="linear", num_filts=2, sampling_rate=2000, low_hz=100,
+    ("gabor-erb", dict(name="gabor", scaling_function="bark", num_filts=2, sampling_rate=2000, low_hz=100,
                        high_hz=800, erb=True)),
     ("tonebank", dict(name="tonebank", scaling_function="mel", num_filts=3, sampling_rate=2000, low_hz=100,
                       high_hz=900)),
@@ -655,25 +675,34 @@ BANKS = [
 ]
 
 
-def make_real_computer(rng, bank_key=None):
+def build_real_computer(cfgd):
     import pydrobert.speech.compute as compute
 
-    bk, bargs = rng.choice(BANKS) if bank_key is None else [b for b in BANKS if b[0] == bank_key][0]
+    bargs = [b for b in BANKS if b[0] == cfgd["bank"]][0][1]
+    return compute.ShortIntegrationFrameComputer(
+        dict(bargs), frame_shift_ms=cfgd["ms"], frame_style=cfgd["style"], include_energy=cfgd["energy"],
+        pad_to_nearest_power_of_two=cfgd["pad"], window_function=cfgd["window"], use_power=cfgd["power"],
+        use_log=cfgd["log"])
+
+
+def make_real_computer(rng, bank_key=None):
+    bk = rng.choice(BANKS)[0] if bank_key is None else bank_key
     cfgd = dict(
         bank=bk,
         style=rng.choice(["causal", "centered"]),
         ms=rng.choice([2.0, 3.0, 4.0, 5.5, 8.0, 8.5, 12.5]),
         pad=rng.random() < 0.5,
-        window=rng.choice([None, "hann", "hamming", "bartlett", "blackman", "gamma"]),
+        window=rng.choice([None, "hanning", "hamming", "bartlett", "blackman", "gamma"]),
         power=rng.random() < 0.5,
         log=rng.random() < 0.5,
         energy=rng.random() < 0.5,
     )
-    comp = compute.ShortIntegrationFrameComputer(
-        dict(bargs), frame_shift_ms=cfgd["ms"], frame_style=cfgd["style"], include_energy=cfgd["energy"],
-        pad_to_nearest_power_of_two=cfgd["pad"], window_function=cfgd["window"], use_power=cfgd["power"],
-        use_log=cfgd["log"])
-    return comp, cfgd
+    return build_real_computer(cfgd), cfgd
+
+
+def comp_pre(comp, cfgd):
+    return comp.frame_shift >= 1 and precondition(cfgd["style"] == "centered", comp.frame_shift,
+                                                  comp._max_support, comp._translation)
 
 
 def close(np, a, b, log):
@@ -684,9 +713,7 @@ def close(np, a, b, log):
     if not a.size:
         return True, ""
     if log:
-        # compare in the linear domain relative to the frame's scale, and in the log domain
-        d = np.abs(a - b)
-        ok = d <= 1e-7 + 1e-7 * np.abs(b)
+        ok = np.abs(a - b) <= 1e-7 + 1e-7 * np.abs(b)
     else:
         scale = max(1e-300, float(np.max(np.abs(b))))
         ok = np.abs(a - b) <= 1e-9 * scale + 1e-9 * np.abs(b)
@@ -697,153 +724,222 @@ def close(np, a, b, log):
 
 
 def signal_lengths(rng, S, L, V, k):
-    pool = [0, 1, S // 2, max(S // 2 - 1, 0), S // 2 + 1, S, S + S // 2, 2 * S + S // 2, L - 1, L, L + 1,
-            V, V + 1, 2 * V + S // 2, 3 * V]
+    pool = [0, 1, S // 2, max(S // 2 - 1, 0), S // 2 + 1, S, S + S // 2, 2 * S + S // 2, 4 * S + S // 2,
+            L - 1, L, L + 1, V, V + 1, 2 * V + S // 2, 3 * V]
     return [rng.choice(pool) if rng.random() < 0.7 else rng.randint(0, 3 * V) for _ in range(k)]
+
+
+FLOATS = ["float16", "float32", "float64", "longdouble"]
+
+
+def check_definition(np, cfgd, xs, dtname):
+    """compute_full against the independent definition; -> list of failure texts."""
+    comp = build_real_computer(cfgd)
+    dt = np.dtype(getattr(np, dtname))
+    x = np.array(xs, dtype=np.float64).astype(dt)
+    S, N = comp.frame_shift, len(xs)
+    try:
+        got = comp.compute_full(x)
+    except Exception as e:  # noqa
+        return ["compute_full raised %s: %s on a %s signal of length %d inside the precondition"
+                % (type(e).__name__, e, dtname, N)], False
+    bad = []
+    if got.dtype != dt:
+        bad.append("compute_full returned dtype %s for %s input" % (got.dtype, dtname))
+    ref, _ = reference_full(np, comp, np.asarray(x, dtype=np.float64), cfgd)
+    if got.shape != ref.shape:
+        bad.append("compute_full returned shape %r, the definition gives %r (N=%d, frame_shift=%d)"
+                   % (got.shape, ref.shape, N, S))
+    elif dt.itemsize >= 8:
+        ok, why = close(np, got, ref, cfgd["log"])
+        if not ok:
+            bad.append("compute_full differs from the documented definition: %s" % why)
+    else:
+        tol = 2e-3 if dtname == "float32" else 0.1
+        g = np.asarray(got, np.float64)
+        if g.size and not np.all((np.abs(g - ref) <= tol * (1 + np.abs(ref))) | ~np.isfinite(g)):
+            bad.append("compute_full (%s) differs from the documented definition beyond the output precision"
+                       % dtname)
+    return bad, len(got) > 0
 
 
 def definition_oracle(ctx, np, nconf):
     """compute_full of real banks against the independent definition (float, 1e-9)."""
     rng = ctx.rng
-    done = 0
-    tries = 0
+    done = tries = 0
     while done < nconf and tries < 20 * nconf:
         tries += 1
         comp, cfgd = make_real_computer(rng)
-        S = comp.frame_shift
-        M, tr = comp._max_support, comp._translation
-        if S < 1 or not precondition(cfgd["style"] == "centered", S, M, tr):
+        if not comp_pre(comp, cfgd):
             ctx.count("oracle:skipped-outside-precondition")
             continue
         done += 1
+        S, M = comp.frame_shift, comp._max_support
         V = comp._dft_size - M + 1
+        ctx.count("oracle:dft:%s" % ("padded" if cfgd["pad"] else ("odd" if comp._dft_size % 2 else "even")))
         for N in signal_lengths(rng, S, comp.frame_length, V, 3):
-            dt = rng.choice([np.float64, np.float64, np.float32, np.float16, np.longdouble])
-            x = (rng.choice([1.0, 1e-3, 30.0]) * np.array([rng.gauss(0, 1) for _ in range(N)])).astype(dt)
-            if rng.random() < 0.1:
-                x = np.zeros(N, dtype=dt)  # silence: the log floor is what comes out
-            inp = dict(config=cfgd, frame_shift=S, max_support=M, translation=tr, dft_size=comp._dft_size,
-                       dtype=np.dtype(dt).name, N=N, signal=[float(v) for v in x][:400])
+            dtname = rng.choice(["float64", "float64", "float64", "float32", "float16", "longdouble"])
+            amp = rng.choice([1.0, 1e-3, 30.0])
+            xs = [0.0] * N if rng.random() < 0.1 else [amp * rng.gauss(0, 1) for _ in range(N)]
+            xs = [float(v) for v in np.array(xs, dtype=np.float64).astype(getattr(np, dtname))]
             ctx.count("oracle:%s:%s" % (cfgd["bank"], cfgd["style"]))
-            ctx.count("oracle:dtype:%s" % np.dtype(dt).name)
-            try:
-                got = comp.compute_full(x)
-            except Exception as e:  # noqa
-                ctx.fail("compute_full raised %s: %s on a floating-point signal inside the precondition"
-                         % (type(e).__name__, e), dict(input=inp), kind="impl")
-                break
-            ctx.case(dict(kind="definition-oracle", cfg=cfgd, N=N, dtype=np.dtype(dt).name), nontrivial=len(got) > 0)
-            if got.dtype != np.dtype(dt):
-                ctx.fail("compute_full returned dtype %s for %s input" % (got.dtype, np.dtype(dt).name),
-                         dict(input=inp), kind="impl")
-            ref, _ = reference_full(np, comp, np.asarray(x, dtype=np.float64), cfgd)
-            if got.shape != ref.shape:
-                ctx.fail("compute_full returned shape %r, the definition gives %r (N=%d, frame_shift=%d)"
-                         % (got.shape, ref.shape, N, S), dict(input=inp), kind="impl")
-                continue
-            if np.dtype(dt).itemsize >= 8:
-                ok, why = close(np, got, ref, cfgd["log"])
-                if not ok:
-                    ctx.fail("compute_full differs from the documented definition: %s" % why,
-                             dict(input=inp), kind="impl")
-            else:
-                tol = 2e-3 if dt == np.float32 else 0.1
-                g, r_ = np.asarray(got, np.float64), ref
-                if g.size and not np.all((np.abs(g - r_) <= tol * (1 + np.abs(r_))) | ~np.isfinite(g)):
-                    ctx.fail("compute_full (%s) differs from the documented definition beyond the output precision"
-                             % np.dtype(dt).name, dict(input=inp), kind="impl")
+            ctx.count("oracle:dtype:%s" % dtname)
+            bad, nt = check_definition(np, cfgd, xs, dtname)
+            ctx.case(dict(kind="definition-oracle", cfg=cfgd, N=N, dtype=dtname), nontrivial=nt)
+            for msg in bad[:1]:
+                ctx.fail(msg, dict(kind="definition", config=cfgd, dtype=dtname, N=N, frame_shift=S,
+                                   max_support=M, translation=comp._translation, dft_size=comp._dft_size,
+                                   signal=xs), kind="impl")
+
+
+def check_chunking(np, cfgd, xs, dtname, parts, cs):
+    import pydrobert.speech.compute as compute
+
+    comp = build_real_computer(cfgd)
+    dt = np.dtype(getattr(np, dtname))
+    x = np.array(xs, dtype=np.float64).astype(dt)
+    N = len(xs)
+    try:
+        full = comp.compute_full(x)
+        outs, pos = [], 0
+        for m in parts:
+            outs.append(comp.compute_chunk(x[pos:pos + m]))
+            pos += m
+        outs.append(comp.finalize())
+        st = np.concatenate(outs)
+        fb = compute.frame_by_frame_calculation(comp, x, cs)
+    except Exception as e:  # noqa
+        return ["streaming raised %s: %s inside the precondition" % (type(e).__name__, e)], False
+    bad = []
+    tol = 1e-9 if dt.itemsize >= 8 else 1e-3
+    for name, got in (("chunks + finalize", st), ("frame_by_frame_calculation", fb)):
+        if got.shape != full.shape:
+            bad.append("%s gives shape %r, compute_full %r" % (name, got.shape, full.shape))
+        elif got.size and not np.allclose(np.asarray(got, np.float64), np.asarray(full, np.float64),
+                                          rtol=tol, atol=tol * max(1.0, float(np.max(np.abs(full))))):
+            bad.append("%s differs from compute_full (max %g)" % (name, float(np.max(np.abs(
+                np.asarray(got, np.float64) - np.asarray(full, np.float64))))))
+        elif N > 0 and got.dtype != full.dtype:
+            bad.append("%s has dtype %s, compute_full %s" % (name, got.dtype, full.dtype))
+    nt = any(len(o_) for o_ in outs[:-1]) and len(outs[-1]) > 0
+    return bad, nt
 
 
 def chunk_oracle(ctx, np, nconf):
     """Any chunking + finalize and frame_by_frame_calculation equal compute_full (float)."""
-    import pydrobert.speech.compute as compute
-
     rng = ctx.rng
     done = tries = 0
     while done < nconf and tries < 20 * nconf:
         tries += 1
         comp, cfgd = make_real_computer(rng)
-        S = comp.frame_shift
-        M, tr = comp._max_support, comp._translation
-        if S < 1 or not precondition(cfgd["style"] == "centered", S, M, tr):
+        if not comp_pre(comp, cfgd):
             continue
         done += 1
+        S, M = comp.frame_shift, comp._max_support
         V = comp._dft_size - M + 1
         for N in signal_lengths(rng, S, comp.frame_length, V, 2):
-            dt = rng.choice([np.float64, np.float64, np.float32])
-            x = np.array([rng.gauss(0, 1) for _ in range(N)]).astype(dt)
+            dtname = rng.choice(["float64", "float64", "float32"])
+            xs = [float(v) for v in np.array([rng.gauss(0, 1) for _ in range(N)]).astype(getattr(np, dtname))]
             parts = gen_chunking(rng, N, S, V)
             cs = rng.choice([1, S, V, V + 1, 7, 1024]) if N < 400 else rng.choice([S, V, V + 1, 1024])
-            inp = dict(config=cfgd, frame_shift=S, max_support=M, translation=tr, dft_size=comp._dft_size,
-                       dtype=np.dtype(dt).name, N=N, chunk_lengths=parts, chunk_size=cs,
-                       signal=[float(v) for v in x][:400])
             ctx.count("chunk-oracle:%s:%s" % (cfgd["bank"], cfgd["style"]))
-            try:
-                full = comp.compute_full(x)
-                outs, pos = [], 0
-                for m in parts:
-                    outs.append(comp.compute_chunk(x[pos:pos + m]))
-                    pos += m
-                outs.append(comp.finalize())
-                st = np.concatenate(outs)
-                fb = compute.frame_by_frame_calculation(comp, x, cs)
-            except Exception as e:  # noqa
-                ctx.fail("streaming raised %s: %s inside the precondition" % (type(e).__name__, e),
-                         dict(input=inp), kind="impl")
-                break
-            ctx.case(dict(kind="chunk-oracle", cfg=cfgd, N=N, parts=parts, cs=cs),
-                     nontrivial=len(full) > 0 and len(parts) > 1)
-            tol = 1e-9 if dt == np.float64 else 1e-3
-            for name, got in (("chunks + finalize", st), ("frame_by_frame_calculation", fb)):
-                if got.shape != full.shape:
-                    ctx.fail("%s gives shape %r, compute_full %r" % (name, got.shape, full.shape),
-                             dict(input=inp), kind="impl")
-                elif got.size and not np.allclose(got, full, rtol=tol, atol=tol):
-                    ctx.fail("%s differs from compute_full (max %g)" % (name, float(np.max(np.abs(
-                        np.asarray(got, np.float64) - np.asarray(full, np.float64))))), dict(input=inp), kind="impl")
-                elif N > 0 and got.dtype != full.dtype:
-                    ctx.fail("%s has dtype %s, compute_full %s" % (name, got.dtype, full.dtype),
-                             dict(input=inp), kind="impl")
+            bad, nt = check_chunking(np, cfgd, xs, dtname, parts, cs)
+            ctx.case(dict(kind="chunk-oracle", cfg=cfgd, N=N, parts=parts, cs=cs), nontrivial=nt)
+            for msg in bad[:1]:
+                ctx.fail(msg, dict(kind="chunking", config=cfgd, dtype=dtname, N=N, chunk_lengths=parts,
+                                   chunk_size=cs, frame_shift=S, max_support=M, translation=comp._translation,
+                                   dft_size=comp._dft_size, signal=xs), kind="impl")
+
+
+def check_dtype(np, cfgd, dtname, N, seed):
+    import random
+
+    comp = build_real_computer(cfgd)
+    r = random.Random(seed)
+    dt = np.dtype(getattr(np, dtname))
+    x = np.array([r.gauss(0, 1) for _ in range(N)] if dt.kind == "f" else [1] * N).astype(dt)
+    if dt.kind == "f":
+        try:
+            got = comp.compute_full(x)
+        except Exception as e:  # noqa
+            return ["compute_full rejects %s input of length %d: %s: %s" % (dtname, N, type(e).__name__, e)]
+        bad = []
+        if got.dtype != dt:
+            bad.append("compute_full returned %s for %s input" % (got.dtype, dtname))
+        if got.shape != ((N + comp.frame_shift // 2) // comp.frame_shift, comp.num_coeffs):
+            bad.append("compute_full returned shape %r for N=%d, frame_shift=%d, num_coeffs=%d"
+                       % (got.shape, N, comp.frame_shift, comp.num_coeffs))
+        return bad
+    try:
+        comp.compute_full(x)
+        return ["compute_full accepted a %s signal" % dtname]
+    except ValueError:
+        return []
+    except Exception as e:  # noqa
+        return ["compute_full raised %s (not ValueError) for a %s signal" % (type(e).__name__, dtname)]
 
 
 def dtype_oracle(ctx, np):
-    """Floating dtypes accepted and preserved; others rejected; restart rules."""
-    import pydrobert.speech.compute as compute
-
+    """Floating dtypes accepted and preserved; others rejected."""
     rng = ctx.rng
-    comp, cfgd = make_real_computer(rng, "gabor")
-    V = comp._dft_size - comp._max_support + 1
-    for dt in (np.float16, np.float32, np.float64, np.longdouble):
-        for N in (0, 1, comp.frame_shift, V, V + 3, 2 * comp._dft_size + 1):
-            x = np.array([rng.gauss(0, 1) for _ in range(N)]).astype(dt)
-            inp = dict(config=cfgd, dtype=np.dtype(dt).name, N=N)
-            ctx.count("dtype-oracle:%s" % np.dtype(dt).name)
-            try:
-                got = comp.compute_full(x)
-            except Exception as e:  # noqa
-                ctx.fail("compute_full rejects %s input of length %d: %s: %s"
-                         % (np.dtype(dt).name, N, type(e).__name__, e), dict(input=inp), kind="impl")
-                comp, cfgd = make_real_computer(rng, "gabor")
-                continue
-            if got.dtype != np.dtype(dt):
-                ctx.fail("compute_full returned %s for %s input" % (got.dtype, np.dtype(dt).name),
-                         dict(input=inp), kind="impl")
-            if got.shape != ((N + comp.frame_shift // 2) // comp.frame_shift, comp.num_coeffs):
-                ctx.fail("compute_full returned shape %r for N=%d, frame_shift=%d"
-                         % (got.shape, N, comp.frame_shift), dict(input=inp), kind="impl")
-    for dt in (np.int32, np.int64, np.bool_, np.complex64, np.complex128):
-        x = np.ones(5).astype(dt)
+    for _ in range(ctx.scale(3, 12)):
+        while True:
+            comp, cfgd = make_real_computer(rng)
+            if comp_pre(comp, cfgd):
+                break
+        V = comp._dft_size - comp._max_support + 1
+        for dtname in FLOATS + ["int32", "int64", "bool_", "complex64", "complex128"]:
+            lens = (0, 1, comp.frame_shift, V, V + 3, 2 * comp._dft_size + 1) if dtname in FLOATS else (5,)
+            for N in lens:
+                ctx.count("dtype-oracle:%s" % dtname)
+                seed = rng.randint(0, 1 << 30)
+                for msg in check_dtype(np, cfgd, dtname, N, seed)[:1]:
+                    ctx.fail(msg, dict(kind="dtype", config=cfgd, dtype=dtname, N=N, seed=seed), kind="impl")
+        # compute_full on a started computer is refused
+        comp = build_real_computer(cfgd)
+        comp.compute_chunk(np.zeros(3))
         try:
-            comp.compute_full(x)
-            ctx.fail("compute_full accepted a %s signal" % np.dtype(dt).name,
-                     dict(input=dict(config=cfgd, dtype=np.dtype(dt).name, N=5)), kind="impl")
+            comp.compute_full(np.zeros(3))
+            ctx.fail("compute_full accepted a signal while an utterance is in progress",
+                     dict(kind="started", config=cfgd), kind="impl")
         except ValueError:
             pass
-        except Exception as e:  # noqa
-            ctx.fail("compute_full raised %s (not ValueError) for a %s signal" % (type(e).__name__, np.dtype(dt).name),
-                     dict(input=dict(config=cfgd, dtype=np.dtype(dt).name, N=5)), kind="impl")
-        if comp.started:
-            comp, cfgd = make_real_computer(rng, "gabor")
+
+
+def replay(ctx, rp):
+    """./check C03 --replay <file>: re-run exactly the recorded case."""
+    C.ensure_impl_path()
+    import numpy as np
+
+    r = rp.get("failure", {}).get("replay", {})
+    kind = r.get("kind")
+    bad = []
+    if kind == "integer":
+        cfg = cfg_from_json(r["cfg"])
+        try:
+            info, outs = run_impl(np, cfg)
+            case = (cfg, info, outs)
+            if compare_cases(ctx, [case], "replay"):
+                what, rep = explain_case(ctx, 0, case, "replay")
+                bad.append(what)
+                print(rep.get("model"))
+                print("implementation:", [o[:4] for o in outs])
+        except NotExact as e:
+            bad.append("integer-coded run is not exact: %s" % e)
+    elif kind == "definition":
+        bad = check_definition(np, r["config"], r["signal"], r["dtype"])[0]
+    elif kind == "chunking":
+        bad = check_chunking(np, r["config"], r["signal"], r["dtype"], r["chunk_lengths"], r["chunk_size"])[0]
+    elif kind == "dtype":
+        bad = check_dtype(np, r["config"], r["dtype"], r["N"], r["seed"])
+    else:
+        print("nothing to re-run on the implementation:", r)
+        return 0
+    for b_ in bad:
+        print("REPRODUCED:", b_)
+    if not bad:
+        print("not reproduced on", C.REPO)
+    return 1 if bad else 0
 
 
 # --------------------------------------------------------------------------
@@ -855,16 +951,17 @@ def run(ctx):
 
     search_needed = []
     pr = C.proof_step(ctx)
+    gate = C.grep_gate(["C03/Exec.v"])
     ok, out = C.coq_make(["C03/Exec.v"])
-    if not ok:
-        ctx.fail("coq/C03 model no longer compiles", dict(correspondence="coq/C03/Exec.v", log_tail=out[-1500:]),
-                 kind="tie", no_input=True)
+    if gate or not ok:
+        ctx.fail("coq/C03 model no longer compiles" if not gate else "forbidden vernacular: %s" % gate[:3],
+                 dict(correspondence="coq/C03/Exec.v", log_tail=out[-1500:]), kind="tie", no_input=True)
     else:
-        integer_correspondence(ctx, ctx.scale(240, 4000), label="si")
+        integer_correspondence(ctx, ctx.scale(800, 8000), label="si")
         if ctx.thorough:
-            integer_correspondence(ctx, 300, label="si-big", big=True)
-    definition_oracle(ctx, np, ctx.scale(30, 300))
-    chunk_oracle(ctx, np, ctx.scale(15, 150))
+            integer_correspondence(ctx, 400, label="sibig", big=True)
+    definition_oracle(ctx, np, ctx.scale(150, 1500))
+    chunk_oracle(ctx, np, ctx.scale(80, 800))
     dtype_oracle(ctx, np)
     ctx.cov["rule"] = (
         "integer-coded cases: one computer built by the real constructor on a stub bank (integer impulse "
@@ -872,8 +969,9 @@ def run(ctx):
         "finalize / frame_by_frame_calculation, floating and rejected dtypes) compared exactly with the Coq "
         "model (geometry, prepared taps, every outcome) and with si_spec evaluated in Coq; float cases: real "
         "banks against an independent np.convolve evaluation of the definition and chunked against full.  "
-        "distinct = distinct (configuration, operation shapes); non-trivial = some operation returned >= 2 "
-        "frames (integer-coded) / at least one frame (oracles)"
+        "distinct = distinct (configuration, operation shapes); non-trivial = a stream in which a non-final "
+        "compute_chunk call AND finalize both returned frames (compute_full / fbf: >= 2 frames; definition "
+        "oracle: >= 1 frame)"
     )
     ctx.cov["trusted_base"] += [
         "np.fft: IDFT(DFT(buf).DFT(taps)) is the circular convolution (modelled as such; its valid part being "
